@@ -5,11 +5,11 @@ HERE = os.path.dirname(os.path.dirname(os.path.abspath(__file__)))
 
 CLAIMED = {
  "C20": dict(level="exploration", ref="§4 C20",
-   technique="deterministic simulation: tasks run as goroutines under a baton-passing cooperative scheduler that switches only at AST-inserted yield points according to an explicit seeded preemption plan (random / PCT-style / biased to in-flight-state sites); solo-vs-interleaved result equality, shared-state fingerprints at every context switch, step budgets; complemented by the same scenarios under the Go race detector with real parallelism (labelled runtime monitoring)",
+   technique="deterministic simulation: tasks run as goroutines under a baton-passing cooperative scheduler that switches only at AST-inserted yield points according to an explicit seeded preemption plan (random / PCT-style / biased to in-flight-state sites); solo-vs-interleaved result equality (results, error words of rejected calls), shared-state fingerprints at every context switch, step budgets; complemented by the same scenarios under the Go race detector with real parallelism (labelled runtime monitoring)",
    text="Stage A decides every interleaving itself: exactly one task goroutine runs at a time and the baton moves at yield points (a yield before EVERY statement of the scratch copy, mutexes bracketed so that no task is parked inside a critical section) according to the scenario's explicit plan (random switching, PCT-style change points, class-restricted switch storms started inside a back-propagation or a random constructor; on small scenarios every single-preemption schedule is enumerated), so a failing schedule replays exactly and is minimised. Oracles: each task's every result equals its solo run bitwise (RNG-derived values by shape, support and independence of the underlying variates), the reflected state of every shared tensor / layer / activation / loss / initializer is unchanged at every switch and at the end, no panic, bounded steps. Stage B re-runs the same scenarios (more often with large shared tensors) on an uninstrumented -race build with real parallelism. Sampling over programs and schedules, exhaustive over single preemptions on the enumerated scenarios.",
    note="Trusted: the scheduler (one runnable goroutine at a time), reflect-based fingerprints. Yield points exist only in qeep's own code. Stage B's interleavings are uncontrolled."),
  "C18": dict(level="exploration", ref="§4 C18",
-   technique="deterministic simulation of the library's only nondeterministic input: the global RNG is pinned through its seed seam (one run seed = one replayable sample); seeded search over seeds x configurations x call orders with deterministic per-call checks and 7-sigma statistical checks per pooled sample",
+   technique="deterministic simulation of the library's only nondeterministic input: the global RNG is pinned through its seed seam (one run seed = one replayable sample); seeded search over seeds x configurations x call orders (with rejected calls between the draws) with deterministic per-call checks and 7-sigma statistical checks per pooled sample",
    text="Each run seeds the library's RNG, issues 50-400 initializer / RandU / RandN calls from 1-3 clients in a scheduler-chosen order and pools the draws per configuration. Every call is checked for shape, tracking (observable through back-propagation), support with the documented bound, the Full constant and freshness; every pool of >= 20000 elements for mean, variance, KS distance, row-major lag-1 autocorrelation and cross-call correlation at 7 standard errors of the configured distribution. A failing run replays exactly from its seed. Sampling; no fault kind applies.",
    note="Trusted: textbook moments / CDFs in props/c18.go. The seam self-test (same seed, same tensor) runs at the start of every run; failure is exit 2."),
  "C16": dict(level="exploration", ref="§4 C16",
@@ -21,7 +21,7 @@ CLAIMED = {
    text="Seeded training histories FC -> activation -> loss assembled from the library's own parts. Every step's loss and weight update is compared with an independent reference (a scalar tape) at the current weights; for each history every protocol fault kind is injected at every step: after an omitted reset / back-propagation the next Update of every weight must fail and replace nothing, and the step after the reset is restored must match the reference again. A dual-mode reference separates the known broadcast-mean finding from any other deviation. Exhaustive over fault placement within a history, sampling over histories.",
    note="Trusted: props/tape.go and the forward formulas written in the harness. Histories at non-differentiable points are discarded and counted."),
  "C10": dict(level="fault_enumeration", ref="§4 C10",
-   technique="deterministic simulation with an alias-scribble fault: for each seeded program over the slice-taking / slice-returning API, every registered caller-visible slice x instant is re-executed with the caller overwriting the slice; twin-run equality of every observation plus immutability invariants after every step",
+   technique="deterministic simulation with an alias-scribble fault: for each seeded program over the slice-taking / slice-returning API, every registered caller-visible slice x instant is re-executed with the caller overwriting the slice; twin-run equality of every observation plus immutability invariants after every step, including rejected calls (invalid-call fault)",
    text="Seeded programs over the public surface that takes or returns slices, followed by BackPropagate / Update / Reset. Fault placement is enumerated per program (quick: every slice x {right after the call, just before each later BackPropagate, at the end}; thorough: x every later instant). Every observation of the faulted run must equal the un-faulted twin bitwise, and in every run no step may change an existing tensor's shape/elements, gradients appear only during BackPropagate on tensors upstream of the root, tracking state changes only by ResetGradContext. Exhaustive over fault placement within a program, sampling over programs.",
    note="Trusted: reflect-based fingerprints, the operand-link notion of 'upstream'. Scribbles overwrite in place (no append); the RNG is re-seeded identically for twin and faulted run."),
  "C08": dict(level="exploration", ref="§4 C08",
@@ -29,7 +29,7 @@ CLAIMED = {
    text="Seeded search over call histories on a shared tensor pool. A reference state machine (tracked, spent, hasGrad, operand links) makes every tracking decision and enforces the property's provisos during generation; after every step the nil-ness of every tensor's gradient, the reflected state of every tensor the step must not touch, and the effect of rejected calls are compared with the model; a twin run with tracking off must give bitwise-equal forward values; a final sweep back-propagates every tensor still allowed so that 'tracked' becomes observable. Sampling, not proof.",
    note="Trusted: the reference state machine (60 lines), reflect-based fingerprints. Situations the statement leaves open (mixing tracked operands with gradient tensors / comparisons of spent tensors) are not generated."),
  "C01": dict(level="exploration", ref="§4 C01",
-   technique="deterministic simulation: seeded DAG-building clients over shared leaves under a call-granularity scheduler; tree-unfolding twin run, exact finite differences on linear programs, additivity/order twins, bounded liveness in simulated steps (yield count) per back-propagation",
+   technique="deterministic simulation: seeded DAG-building clients over shared leaves under a call-granularity scheduler; tree-unfolding twin run, exact finite differences on linear programs, additivity/order twins, invalid-call faults (rejected calls on graph tensors that the twins do not make), bounded liveness in simulated steps (yield count) per back-propagation",
    text="Seeded search over operation DAGs (diamond chains, ladders, fan-outs, random reuse; 1-4 graphs sharing leaves; scheduler-chosen construction interleaving and back-propagation order). Each run compares the real back-propagation with (a) a twin in which every shared sub-expression is recomputed per consumer, (b) cone-split twins (every use of one reconvergent node recomputes its cone) that work at any depth, (c) exact finite differences for linear programs, (d) a narrow directional central-difference anchor for small smooth programs without broadcast expansion, (e) per-graph runs with shared leaves split per edge and the reversed order, and bounds the work of each back-propagation in simulated steps and in backward-rule applications. Sampling, not proof.",
    note="Trusted: every single-consumer backward rule (C02/C07 are not applicable to this technique), float addition in the harness, the yield-count clock of the instrumented copy. Operands are kept away from non-differentiable points."),
  "C19": dict(level="fault_enumeration", ref="§4 C19",
